@@ -85,6 +85,8 @@ class Resolver:
                 return "ext:" + ".".join([imp[1]] + rest)
         if name in self.p.classes:  # TYPE_CHECKING imports etc.
             return self.p.classes[name]
+        if name in ("dict", "list", "set", "tuple", "frozenset", "str", "bytes", "int", "float", "bool"):
+            return "ext:builtins." + name
         return None
 
     # ------------------------------------------------------------ attribute types
@@ -99,7 +101,7 @@ class Resolver:
                 res = self.ann_to_type(c.module, c.annotations[attr])
                 if res is not None:
                     break
-            if attr in c.assigns:
+            if attr in c.assigns and not (isinstance(c.assigns[attr], ast.Call) and dotted(c.assigns[attr].func) in ("field", "dataclasses.field")):
                 res = self.expr_type_in_module(c.module, c.assigns[attr])
                 if res is not None:
                     break
